@@ -125,8 +125,29 @@ def expansion_case(case):
     from orquestra.quantum.operators._utils import get_pauliop_from_matrix
     n = case["n"]
     M = build_matrix(case["m"], n)
-    arg = M.tolist() if case.get("as", "list") == "list" else M
+    how = case.get("as", "list")
+    # the same matrix in the memory layouts numpy hands around: nested lists, C order, Fortran order, a transposed view, a strided slice of a larger array, a read-only array
+    if how == "list":
+        arg = M.tolist()
+    elif how == "fortran":
+        arg = np.asfortranarray(M)
+    elif how == "tview":
+        arg = np.ascontiguousarray(M.T).T
+    elif how == "adjoint-of-adjoint":
+        arg = M.conj().T.conj().T
+    elif how == "strided":
+        big = np.zeros((2 * M.shape[0], 2 * M.shape[1]), dtype=complex)
+        big[::2, ::2] = M
+        arg = big[::2, ::2]
+    elif how == "readonly":
+        arg = M.copy()
+        arg.setflags(write=False)
+    else:
+        arg = M
+    keep = np.array(arg, dtype=complex, copy=True)
     op = get_pauliop_from_matrix(arg)
+    if not np.array_equal(np.asarray(arg, dtype=complex), keep):
+        return {"ok": False, "msg": "get_pauliop_from_matrix modified the matrix it was given", "sig": "expansion:mutated"}
     back = impl_dense(op, n)
     r = {"ok": True, "nt": nontrivial(M), "ops": 2, "out": "terms%d" % min(len(op.terms), 9)}
     if not _close(back, M, atol=ATOL):
@@ -324,6 +345,7 @@ def run(run):
         singles = [["E", i, j, s] for i in range(d) for j in range(d) for s in SC] + [["P", "".join(p), 1] for p in itertools.product("IXYZ", repeat=n)]
         cases += [{"n": n, "m": [a]} for a in singles]
         cases += [{"n": n, "m": [a], "as": "array"} for a in singles[::7]]
+        cases += [{"n": n, "m": [a, b_], "as": how_} for how_ in ("fortran", "tview", "adjoint-of-adjoint", "strided", "readonly") for a in singles[::5] for b_ in singles[3::11]]
         if n <= 2:
             cases += [{"n": n, "m": [a, b]} for a in singles for b in singles]
         else:
